@@ -11,7 +11,7 @@ EXPLANATION = ("the closures that decide replacement (register), removal (deregi
                "/ {endpoint, message_id}, and a path may return true only when every equality test made on it holds "
                "(conjunction); register performs an indexed store on the found path and a push otherwise, of an "
                "observer built with counter 0 and no pending id; deregister mutates only through Vec::remove on the "
-               "found path; a notification round reaches no inserting map API")
+               "found path; a notification round reaches no inserting map API; of the subject's operations only deregister and resource_changed reach a call that takes elements out of an observer list or entries out of the resource map (C14.8, call graph)")
 NOT_DECIDED = "Not decided: statements about sequences of operations as such (history semantics)."
 ASSUMPTIONS = ["requests handed to Subject come from an endpoint (request.source is Some)"]
 
